@@ -74,6 +74,7 @@ def cases_formulas(tier):
         out.append(dict(f=f, terms=1, exps=(2,)))
         out.append(dict(f=f, terms=2, exps=(2, -2)))
         out.append(dict(f=f, terms=2, exps=(-2, 4)))
+        out.append(dict(f=f, terms=2, exps=(-1, 1)))         # odd powers of the wavelength (liquids: n = A + B / w + ...)
     out.append(dict(f=4, terms=0, exps=(2, 2, 0, 2)))
     out.append(dict(f=4, terms=0, exps=(0, 1, 2, 2)))       # numerator exponents differ (c[2] != c[6])
     out.append(dict(f=4, terms=1, exps=(2, 1, 0, 2, -2)))
@@ -86,7 +87,7 @@ def cases_formulas(tier):
 
 @harness('C18', 'H1_formulas', cases=cases_formulas, funcs=FUNCS,
          bounds='all nine dispersion formulas with 1-2 (thorough 3) terms, symbolic coefficients and wavelength; exponent coefficients of '
-                'formulas 3/4/5 enumerated from {-2,0,1,2,4}; parsing of the coefficient string through the real _parse_file',
+                'formulas 3/4/5 enumerated from {-2,-1,0,1,2,4}; parsing of the coefficient string through the real _parse_file',
          doc='MaterialFile.n(w) (or its square) equals the refractiveindex.info dispersion formula of the data block; scalar and '
              '1-element array arguments agree')
 def h1_formulas(ctx, f, terms, exps):
